@@ -451,11 +451,12 @@ mutual
     (no right-hand side) or a tree in right-hand-side position with `lvlProj < llevel r`. -/
 def wp : Bool → PTree → Bool
   | _, .icur => false
-  | _, .atom t => (atomNode t).isSome
-  | _, .paren t => wp false t
-  | _, .not t => wp false t && decide (lvlNot < llevel t)
-  | _, .neg tok t => tok.type == .subtract && wp false t && decide (lvlMul < llevel t)
-  | _, .pos t => wp false t && decide (lvlMul < llevel t)
+  -- forms without a left operand: in primary position only
+  | b, .atom t => !b && (atomNode t).isSome
+  | b, .paren t => !b && wp false t
+  | b, .not t => !b && wp false t && decide (lvlNot < llevel t)
+  | b, .neg tok t => !b && tok.type == .subtract && wp false t && decide (lvlMul < llevel t)
+  | b, .pos t => !b && wp false t && decide (lvlMul < llevel t)
   -- left-associative: the left operand may be at the same level, the right operand must be tighter
   | b, .bin op l r =>
     (match binLevel op.type with
@@ -473,15 +474,15 @@ def wp : Bool → PTree → Bool
   | b, .dotStarList l => (if l.isIcur then b else wp b l && decide (lvlDot ≤ rlevel l))
   -- brackets: `icur` as left operand in both positions
   | b, .index l n => (if l.isIcur then true else wp b l && decide (lvlBracket ≤ rlevel l)) && isIntTok n
-  | _, .call name args =>
-    name.type == .unquotedIdentifier &&
+  | b, .call name args =>
+    !b && name.type == .unquotedIdentifier &&
     (match Parser.lookupBuiltin name.value with
      | none => false
      | some spec => argsOK spec args) && wpArgs args
   | _, .ref _ => false
-  | _, .letIn bs body => !bs.isEmpty && wpKVs isVarTok bs && wp false body
-  | _, .multiList es => !es.isEmpty && wpL es
-  | _, .multiHash kvs => !kvs.isEmpty && wpKVs keyOK kvs
+  | b, .letIn bs body => !b && !bs.isEmpty && wpKVs isVarTok bs && wp false body
+  | b, .multiList es => !b && !es.isEmpty && wpL es
+  | b, .multiHash kvs => !b && !kvs.isEmpty && wpKVs keyOK kvs
   | b, .star l rhs =>
     (if l.isIcur then true else wp b l && decide (lvlBracket ≤ rlevel l)) &&
       (rhs.isIcur || (wp true rhs && decide (lvlProj < llevel rhs)))
@@ -530,5 +531,90 @@ theorem levels_agree :
     precedence .arrayWildcard = lvlBracket ∧ precedence .openSqBrace = lvlBracket ∧
     (∀ t, precedence t < top) :=
   ⟨rfl, rfl, rfl, rfl, rfl, rfl, rfl, rfl, rfl, rfl, rfl, rfl, rfl, rfl, fun t => by cases t <;> decide⟩
+
+
+/-! ## Sanity: a dozen expressions in the style of the compliance corpus
+
+  For each: the `PTree`, `flatten` is what the lexer produces, `WellPrec` holds.  That `Parser.parse` returns `erase` of
+  the tree is `C04G.parse_complete` (examples there). -/
+
+namespace Ex
+def bs (s : String) : Bytes := s.toList.map Char.toNat
+/-- an unquoted identifier -/
+def idt (s : String) : PTree := .atom ⟨.unquotedIdentifier, bs s⟩
+def int (s : String) : Token := ⟨.integerLiteral, bs s⟩
+def op (ty : TokenType) (s : String) : Token := ⟨ty, bs s⟩
+def lexes (src : String) (t : PTree) : Prop := lexAll (bs src) = (flatten t ++ [⟨.end, []⟩], none)
+instance (src : String) (t : PTree) : Decidable (lexes src t) := inferInstanceAs (Decidable (_ = _))
+
+/-- `foo[*].bar.baz`: the right-hand side extends over both selectors -/
+def e01 : PTree := .star (idt "foo") (.dotId (.dotId .icur (idt "bar")) (idt "baz"))
+/-- `foo[*].bar | [0]`: the pipe closes the projection -/
+def e02 : PTree := .bin (op .pipe "|") (.star (idt "foo") (.dotId .icur (idt "bar"))) (.index .icur (int "0"))
+/-- `a.b[0].c`: the index belongs to `b` -/
+def e03 : PTree := .dotId (.dotId (idt "a") (.index (idt "b") (int "0"))) (idt "c")
+/-- ``foo[?a == `1`].b`` -/
+def e04 : PTree :=
+  .filt (idt "foo") (.bin (op .equal "==") (idt "a") (.atom ⟨.jsonLiteral, bs "`1`"⟩)) (.dotId .icur (idt "b"))
+/-- `foo[].bar[]`: the second `[]` closes the first projection -/
+def e05 : PTree := .flat (.flat (idt "foo") (.dotId .icur (idt "bar"))) .icur
+/-- `*.a.*`: a leading `*`, then the fused token `.*` inside its right-hand side -/
+def e06 : PTree := .ostar .icur (.ostar (.dotId .icur (idt "a")) .icur)
+/-- `foo[*][*]`: the second `[*]` is inside the right-hand side of the first -/
+def e07 : PTree := .star (idt "foo") (.star .icur .icur)
+/-- `a || b && c` -/
+def e08 : PTree := .bin (op .or "||") (idt "a") (.bin (op .and "&&") (idt "b") (idt "c"))
+/-- `!a.b` is `(!a).b` -/
+def e09 : PTree := .dotId (.not (idt "a")) (idt "b")
+/-- `-a * b` is `(-a) * b` -/
+def e10 : PTree := .bin (op .asterisk "*") (.neg (op .subtract "-") (idt "a")) (idt "b")
+/-- `{a: b, c: d}.a` -/
+def e11 : PTree :=
+  .dotId (.multiHash [(⟨.unquotedIdentifier, bs "a"⟩, idt "b"), (⟨.unquotedIdentifier, bs "c"⟩, idt "d")]) (idt "a")
+/-- `sort_by(a, &b)[0]` -/
+def e12 : PTree := .index (.call ⟨.unquotedIdentifier, bs "sort_by"⟩ [idt "a", .ref (idt "b")]) (int "0")
+/-- `let $x = a in $x.b` -/
+def e13 : PTree :=
+  .letIn [(⟨.variable, bs "$x"⟩, idt "a")] (.dotId (.atom ⟨.variable, bs "$x"⟩) (idt "b"))
+/-- `foo[1:3].a[0]` -/
+def e14 : PTree := .slice (idt "foo") (some (int "1")) (some (int "3")) none (.dotId .icur (.index (idt "a") (int "0")))
+
+example : lexes "foo[*].bar.baz" e01 ∧ WellPrec e01 := by decide
+example : lexes "foo[*].bar | [0]" e02 ∧ WellPrec e02 := by decide
+example : lexes "a.b[0].c" e03 ∧ WellPrec e03 := by decide
+example : lexes "foo[?a == `1`].b" e04 ∧ WellPrec e04 := by decide +kernel
+example : lexes "foo[].bar[]" e05 ∧ WellPrec e05 := by decide
+example : lexes "*.a.*" e06 ∧ WellPrec e06 := by decide
+example : lexes "foo[*][*]" e07 ∧ WellPrec e07 := by decide
+example : lexes "a || b && c" e08 ∧ WellPrec e08 := by decide
+example : lexes "!a.b" e09 ∧ WellPrec e09 := by decide
+example : lexes "-a * b" e10 ∧ WellPrec e10 := by decide
+example : lexes "{a: b, c: d}.a" e11 ∧ WellPrec e11 := by decide
+example : lexes "sort_by(a, &b)[0]" e12 ∧ WellPrec e12 := by decide +kernel
+example : lexes "let $x = a in $x.b" e13 ∧ WellPrec e13 := by decide
+example : lexes "foo[1:3].a[0]" e14 ∧ WellPrec e14 := by decide
+
+/-- the nodes -/
+example : erase e01 = .projectArray (.field (bs "foo")) (.pipe (.field (bs "bar")) (.field (bs "baz"))) := rfl
+example : erase e02 = .pipe (.projectArray (.field (bs "foo")) (.field (bs "bar"))) (.smallIndexCurrent 0) := rfl
+example : erase e03 = .pipe (.pipe (.field (bs "a")) (.index (.field (bs "b")) 0)) (.field (bs "c")) := rfl
+example : erase e05 = .flatten (.flattenAndProject (.field (bs "foo")) (.field (bs "bar"))) := rfl
+example : erase e06 = .projectObjectCurrent (.objectValues (.field (bs "a"))) := rfl
+example : erase e07 = .projectArray (.field (bs "foo")) .pruneArrayCurrent := rfl
+example : erase e09 = .pipe (.not (.field (bs "a"))) (.field (bs "b")) := rfl
+example : erase e10 = .binop .mul (.negate (.field (bs "a"))) (.field (bs "b")) := rfl
+example : erase e14 = .projectArray (.slice (.field (bs "foo")) 1 3) (.index (.field (bs "a")) 0) := rfl
+example : erase e12 = .index (.sortBy (.field (bs "a")) (.field (bs "b"))) 0 := rfl
+example : erase e13 = .defineVariables [(bs "$x", .field (bs "a"))] (.pipe (.variable (bs "$x")) (.field (bs "b"))) :=
+  rfl
+
+/-- the other readings are not well formed: `(foo[*].bar).baz` needs its parentheses, `(foo[*])[*]` too -/
+example : ¬ WellPrec (.dotId (.star (idt "foo") (.dotId .icur (idt "bar"))) (idt "baz")) := by decide
+example : ¬ WellPrec (.star (.star (idt "foo") .icur) .icur) := by decide
+example : ¬ WellPrec (.not (.dotId (idt "a") (idt "b"))) := by decide
+example : ¬ WellPrec (.index (.dotId (idt "a") (idt "b")) (int "0")) := by decide
+/-- `a[*]b` is not an expression: a right-hand side starts at the implicit current node -/
+example : ¬ WellPrec (.star (idt "a") (idt "b")) := by decide
+end Ex
 
 end Jmes.Grammar
